@@ -13,6 +13,7 @@ CHECK = dict(
         dict(name="dnssvc", dir="internal/dnssvc", src=["C10/fixture", "C15/dnssvc"], runs=[
             dict(name="log", run="^TestVerifC15Log$", quick=12000, thorough=400000, shards_quick=2, shards_thorough=8),
             dict(name="lograce", run="^TestVerifC15Log$", quick=1200, thorough=30000, shards_thorough=4, race=True),
+            dict(name="hashprefix", run="^TestVerifC15HashPrefix$", quick=3000, thorough=80000, shards_thorough=4),
             dict(name="realgeoip", run="^TestVerifC15RealGeoIP$", quick=600, thorough=20000, shards_thorough=4),
             dict(name="realgeoiprace", run="^TestVerifC15RealGeoIP$", quick=300, thorough=6000, shards_thorough=2, race=True),
         ]),
